@@ -208,7 +208,9 @@ class World:
         self.handler_calls = []
         self.store = self.queue = self.processor = self.registry = None
         self.pristine = None
-        self.dedup_capacity = 256
+        self.dedup_capacity = 64
+        self._engine_active = False
+        self.dangling_txn = False
 
     # ---- database -----------------------------------------------------
     @property
@@ -390,6 +392,7 @@ class World:
             undo.append(lambda: setattr(q, "ack", orig_ack))
         exc = None
         try:
+            self._engine_active = True
             self.processor.process_one()
         except Die:
             c = self.conn
@@ -399,6 +402,7 @@ class World:
         except Exception as e:  # real engine path: message was rescheduled
             exc = e
         finally:
+            self._engine_active = False
             q.poll_one = orig_poll
             for u in undo:
                 u()
@@ -414,7 +418,11 @@ class World:
         return m, exc
 
     def run_recovery(self):
-        return self.processor.run_recovery()
+        self._engine_active = True
+        try:
+            return self.processor.run_recovery()
+        finally:
+            self._engine_active = False
 
     # ---- monitors -------------------------------------------------------
     def drain_audit(self):
